@@ -49,7 +49,10 @@ impl<'p> Painter<'p> {
 //@rewriteall <<<draw_fn(>>> => <<<verif_draw(&mut draw_fn,>>>
 //@before <<<if !mode_info.is_empty() {>>>| proof { assert(painter.writer.hist().subrange(0, old(painter).writer.hist().len() as int) =~= old(painter).writer.hist()); lemma_hist_lines_only_text(old(painter).writer.hist(), painter.writer.hist()); }
 
+pub open spec fn mp_known(mp: MergeParents) -> bool { !(mp is Unknown) }
+pub open spec fn mc_empty(m: &MergeConflictLines) -> bool { m.ours@.len() == 0 && m.ancestral@.len() == 0 && m.theirs@.len() == 0 }
 impl<'a> StateMachine<'a> {
+    //@ stub src/handlers/merge_conflict.rs StateMachine::handle_unterminated_merge_conflict optional=1 spec=merge.handle_unterminated
     //@ stub src/delta.rs StateMachine::should_handle spec=delta.should_handle
     //@ stub src/delta.rs StateMachine::should_skip_line spec=delta.should_skip_line
     //@ stub src/delta.rs StateMachine::emit_line_unchanged spec=delta.emit_line_unchanged
